@@ -1,0 +1,13 @@
+//go:build verif
+
+// Contracts for the deductive verifier in /verif (govc): score debugging never
+// changes a score (C29). Comment-only file, compiled only with -tags verif.
+
+package zoekt
+
+// AddScore adds exactly `computed` to the file's score whether or not score
+// debugging is on; the flag only decides whether the explanation string grows.
+//@ func zoekt.(*FileMatch).AddScore
+//@   requires m != nil
+//@   ensures m.Score == old(m.Score) + computed
+//@   ensures !debugScore ==> m.Debug == old(m.Debug)
